@@ -9,9 +9,9 @@ HOOK_COMMITS = subprocess.run(
 # id -> (built?, technique, level text, level note, design_ref)
 CHECKS = {
  "C19": (True,
-   "protocol-model driver + shadow reference: a transliteration of main.ts drives the real JsInterpreter under catch_unwind (trap monitor) while a shadow core interpreter checks state, outputs and error text",
+   "trap monitor + shadow reference: the real main.ts (under node) and a Rust transliteration of it drive the real JsInterpreter under catch_unwind while a shadow core interpreter checks state, outputs and error text",
    "Random page-event sequences (program file loaded at start-up, submitted lines / replies / commands, break requests, timer ticks) are handled the way main.ts handles them against the native build of the real adapter; every adapter call is guarded against panics (traps, incl. the adapter's own assertions and the unreachable state arm) and mirrored on a shadow abasic_core::Interpreter whose state, output records and error text must equal what the adapter exposes; NEW must behave like a fresh interpreter.",
-   "The TypeScript is not executed: the page model is tied to main.ts by source patterns read at run time (inconclusive if they disappear); native rlib build instead of the wasm artefact.",
+   "Two drivers: (1) a Rust transliteration of main.ts tied to the source by patterns read at run time; (2) the REAL main.ts, type-stripped by regexes and executed under node 20 with ui.ts mocked, calling the real adapter over a synchronous RPC bridge (inconclusive if the stripped script stops parsing). Native rlib build of the adapter instead of the wasm artefact.",
    "DESIGN.md §5 C19"),
  "C20": (True,
    "black-box monitoring of the real abasic-lsp child process over JSON-RPC: liveness, UTF-16 bounds oracle, equality with the in-process analyzer",
